@@ -303,7 +303,38 @@ def handle(req):
             texts.append(text)
             if req.get("through_files"):
                 save_events_to_file(req.get("name", "wf"), events, req["model_path"])
-        return {"text": texts[-1], "texts": texts, "model": dump_model(events)}
+        rep = {"text": texts[-1], "texts": texts, "model": dump_model(events)}
+        if req.get("through_files"):
+            with open(req["model_path"]) as f:
+                rep["file"] = json.load(f)
+            os.remove(req["model_path"])
+        return rep
+    if op == "cli":
+        # the real command line: argparse + main_handler, output captured
+        import io, contextlib
+        from tel2puml import __main__ as cli
+        buf = io.StringIO()
+        code = 0
+        with contextlib.redirect_stdout(buf), contextlib.redirect_stderr(buf):
+            try:
+                args = cli.parser.parse_args(req["argv"])
+                cli.main_handler(vars(args), cli.ERROR_MESSAGES)
+            except SystemExit as ex:
+                code = ex.code if isinstance(ex.code, int) else 1
+        return {"exit": code, "output": buf.getvalue()[-1500:]}
+    if op == "otel_to_pv":
+        import io, contextlib, yaml
+        from tel2puml.otel_to_pv.config import IngestDataConfig
+        from tel2puml.otel_to_pv.otel_to_pv import otel_to_pv
+        with open(req["config"]) as f:
+            config = IngestDataConfig(**yaml.safe_load(f))
+        buf = io.StringIO()
+        out = []
+        with contextlib.redirect_stdout(buf), contextlib.redirect_stderr(buf):
+            for name, streams in otel_to_pv(config, ingest_data=True):
+                for pvs in streams:
+                    out.append([name, [dict(p) for p in pvs]])
+        return {"jobs": out}
     if op == "ingest":
         events = update_and_create_events_from_clustered_pvevents(req["jobs"], add_dummy_start=True)
         return {"model": dump_model(events), "file": events_to_raw_input(events)}
